@@ -33,9 +33,9 @@ def _vname(v):
 class WalkIter:
     """a port of walkdir 2.5's IntoIter::next / handle_entry / get_deferred_dir / skip_current_dir onto the static TREE"""
 
-    def __init__(self, min_d, max_d, contents_first, follow_links, follow_root_links=False, root_is_link=False):
+    def __init__(self, min_d, max_d, contents_first, follow_links, follow_root_links=False, root_is_link=False, root_dangling=False):
         self.min, self.max, self.cf, self.fl = min_d, max_d, contents_first, follow_links
-        self.frl, self.root_is_link = follow_root_links, root_is_link
+        self.frl, self.root_is_link, self.root_dangling = follow_root_links, root_is_link, root_dangling
         self.start, self.stack, self.deferred, self.depth = True, [], [], 0
 
     def skippable(self):
@@ -55,6 +55,11 @@ class WalkIter:
         if self.fl and k == "loop":
             return ("err", None, p, d)                # Error::from_loop: no io::Error inside
         is_dir = k in ("dir", "unreadable") or (k == "dirlink" and self.fl)      # a followed link to a directory is descended (its target is empty here)
+        if i == 0 and self.root_dangling:
+            # the starting point is a symbolic link to nothing: following it (follow_links, or follow_root_links for the root) fails
+            if self.fl or self.frl:
+                return ("err", ENOENT, p, 0)
+            return None if self.skippable() else ("ok", i)
         if i == 0 and self.root_is_link and not self.fl:
             # the starting point is a symbolic link to the directory: without follow_links the DirEntry stays a symlink
             # (is_normal_dir = false); with follow_root_links walkdir still descends into it - but does not defer it
@@ -140,6 +145,7 @@ def explore(funcs, index, enums, text):
     mind, maxd, follow = z3.Int("mindepth"), z3.Int("maxdepth"), z3.Int("follow")
     depth_first = z3.Bool("depth_first")
     root_link = z3.Bool("starting_point_is_a_link")
+    root_dang = z3.Bool("starting_point_is_a_dangling_link")
     state = {}
 
     def wd_new(m, args):
@@ -155,7 +161,7 @@ def explore(funcs, index, enums, text):
     def wd_into_iter(m, args):
         w = state["wd"]
         state["it"] = WalkIter(w.get("min_depth", 0), w.get("max_depth", 10 ** 9), bool(w.get("contents_first", False)), bool(w.get("follow_links", False)),
-                               bool(w.get("follow_root_links", False)), state.get("root_link", False))
+                               bool(w.get("follow_root_links", False)), state.get("root_link", False), state.get("root_dang", False))
         return Struct("WalkIter", [])
 
     def wd_skip(m, args):
@@ -214,6 +220,8 @@ def explore(funcs, index, enums, text):
     def symlink_metadata(m, a):
         p = text_of(m, a[0])
         kinds = {q: k for q, _d, k in TREE}
+        if p == "r" and state.get("root_dang"):
+            return Ok(Struct("MetadataV", ["dangling"]))
         if p in kinds:
             return Ok(Struct("MetadataV", [kinds[p]]))
         return Err(Struct("IoError", [ENOENT]))
@@ -252,7 +260,8 @@ def explore(funcs, index, enums, text):
             fo = m.decide_int(follow, [0, 1]); fo = 2 if fo is None else fo
             df = m.decide(depth_first)
             rl = m.decide(root_link)
-            state["root_link"] = rl
+            rd = (not rl) and m.decide(root_dang)
+            state["root_link"], state["root_dang"] = rl, rd
             cfg = [m.call("<Config as Default>::default", [])]
             r = m.call("build_top_level_matcher", [SliceRef([RStr("-print")]), Ptr(cfg, 0)])
             c = cfg[0]
@@ -275,7 +284,11 @@ def explore(funcs, index, enums, text):
         if rl and fo == 0:
             # -P: a starting point that is a link is reported, never descended
             want, unread = (["r"] if mn <= 0 <= mx else []), False
-        conf = "-mindepth %d -maxdepth %d%s %s%s" % (mn, mx, " -depth" if df else "", ["-P", "-H", "-L"][fo], " (the starting point is a symbolic link to the directory)" if rl else "")
+        if rd:
+            # a dangling starting point is still visited, as a link, under every follow mode; nothing below it
+            want, unread = (["r"] if mn <= 0 <= mx else []), False
+        conf = "-mindepth %d -maxdepth %d%s %s%s" % (mn, mx, " -depth" if df else "", ["-P", "-H", "-L"][fo],
+                                                       " (the starting point is a symbolic link to the directory)" if rl else " (the starting point is a dangling symbolic link)" if rd else "")
         w = state["wd"]
         asked = (w.get("min_depth"), w.get("max_depth"), bool(w.get("contents_first")), bool(w.get("follow_links")), bool(w.get("follow_root_links")))
         if mn <= mx and asked != (mn, mx, df, fo == 2, fo != 0):
@@ -289,7 +302,7 @@ def explore(funcs, index, enums, text):
                                           dict((q, k) for q, _d, k in TREE)[p] == "dangling" for p in extra)) else
                                       "-H with a starting point that is a link to a directory, under -depth" if (rl and fo == 1 and df) else "other"})
         if (ret != 0) != unread:
-            res["violations"].append({"what": "%s: status %r, an unreadable directory was%s to be reported" % (conf, ret, "" if unread else " not"), "config": conf})
+            res["violations"].append({"what": "%s: status %r, expected %s" % (conf, ret, "non-zero (something is diagnosed)" if unread else "0 (nothing to diagnose)"), "config": conf})
         if len(res["samples"]) < 3 and mn == 1:
             res["samples"].append({"config": conf, "evaluated": state["visited"], "status": ret})
     res["wall_s"] = round(time.time() - t0, 2)
@@ -307,6 +320,7 @@ def explore_prune(funcs, index, enums, text):
     dirs = [p for p, _d, k in TREE if k in ("dir", "unreadable", "loop")]      # the loop link: a symlink to a directory is not a directory under -P
     sel = {p: z3.Bool("prune_" + p.replace("/", "_")) for p in dirs}
     form = z3.Int("depth_form")          # 0: no -depth, 1: -depth before -prune, 2: -depth after -prune
+    maxd = z3.Int("maxdepth")            # 1..3, 4 = unlimited
     state = {}
 
     def wd_new(m, args):
@@ -410,7 +424,7 @@ def explore_prune(funcs, index, enums, text):
         return m.run(m.index[mc.group(0)], [args[1], v.fields[0]])
     models.EXACT["Option::and_then"] = opt_and_then
     m = Machine(funcs, index, enums, models, natives=nat, max_steps=2000000)
-    m.base_constraints = [form >= 0, form <= 2]
+    m.base_constraints = [form >= 0, form <= 2, maxd >= 1, maxd <= 4]
     m.pending = [[]]
     t0 = time.time()
     while m.pending:
@@ -423,6 +437,8 @@ def explore_prune(funcs, index, enums, text):
             r = m.call("build_top_level_matcher", [SliceRef([RStr(t) for t in expr]), Ptr(cfg, 0)])
             if r.variant != "Ok":
                 raise Unsupported("expression rejected: %r" % expr)
+            mx = m.decide_int(maxd, [1, 2, 3]); mx = 10 ** 9 if mx is None else mx
+            cfg[0].fields[CONFIG_FIELDS.index("max_depth")] = mx
             quit_cell = [False]
             ret = m.call("process_dir", [RStr("r"), Ptr(cfg, 0), Opaque("deps"), Ptr(r.fields[0].cell, 0), Ptr(quit_cell, 0)])
         except RustPanic as e:
@@ -448,7 +464,7 @@ def explore_prune(funcs, index, enums, text):
             pruned_here = isdir and selected          # ... and, in the default order, a directory's descendants are left out
             if isdir and not depth_first:
                 order.append((p, selected))
-            if isdir and (depth_first or not pruned_here):
+            if isdir and (depth_first or not pruned_here) and d + 1 <= mx:
                 if k == "unreadable":
                     want_err[0] = True
                 for j in children(i):
@@ -458,7 +474,7 @@ def explore_prune(funcs, index, enums, text):
         visit(0, False)
         want = [p for p, pr in order if not pr]
         # which selection bits the path actually read
-        conf = "%s, X selects %r" % (" ".join(expr), sorted(p for p, v in selv.items() if v))
+        conf = "%s%s, X selects %r" % (("-maxdepth %d " % mx) if mx < 10 else "", " ".join(expr), sorted(p for p, v in selv.items() if v))
         unread = [p for p in sel if p not in selv]
         if state["visited"] != want:
             res["violations"].append({"what": "%s: printed %r, expected %r" % (conf, state["visited"], want), "config": conf})
